@@ -318,7 +318,7 @@ def write_evidence(prop, tier, seed, lemmas, results, violations, known_hit, wal
                 samples.append({"lemma": r["label"], **(s if isinstance(s, dict) else {"case": s})})
     bounds = {lm.name: {"bounds": lm.bounds, "outside": lm.outside, "unbounded_in": lm.unbounded} for lm in lemmas}
     ev = {
-        "property_id": prop, "tier": tier, "seed": seed, "level": "model_checking",
+        "property_id": prop, "tier": tier, "seed": seed, "level": "other" if prop == "C17" else "model_checking",
         "coverage": {
             "states": max(paths, 0), "transitions": max(decisions, 0), "traces_validated_against_impl": replayed,
             "samples": samples or [{"note": "no sample"}],
